@@ -63,6 +63,11 @@ func (c *Client) Guard(mut time.Duration) {
 	c.MutWatchdog, c.FailFast = mut, true
 }
 
+// OnUnanswered, when set, is called each time a request got no answer within its watchdog, before the caller sees the
+// response. Checks whose emulator runs in this process use it to tell a stuck handler from a slow machine (gcscheck:
+// hangConfirm); it may end the process.
+var OnUnanswered func(desc string)
+
 // Unanswered is the number of requests on this client that got no answer within their watchdog.
 func (c *Client) Unanswered() int64 { return c.unanswered.Load() }
 
@@ -188,6 +193,9 @@ func (c *Client) do(watchdog time.Duration, method, target string, hdr [][2]stri
 			c.firstUnanswered.Store(msg)
 		}
 		c.count("requests_not_answered_within_watchdog")
+		if OnUnanswered != nil {
+			OnUnanswered(msg)
+		}
 		return &Resp{Err: msg, Unanswered: watchdog}
 	}
 	rsp, err := c.hc.Do(req)
